@@ -308,11 +308,14 @@ def two_process(chk, sets, embossc_results):
                 "two_process": {"fe_rc": r["fe"]["rc"], "be_rc": r.get("be", {}).get("rc"),
                                 "header_sha": sha(r["header"]), "stderr": r["fe"]["stderr"][:800]},
                 "expected": "identical header / identical accept-reject"}, key="twoproc:" + s["name"])
-        elif one["rc"] != 0 and r["fe"]["stderr"] != one["stderr"]:
+        elif one["rc"] != 0 and r["fe"]["stderr"] + r.get("be", {}).get("stderr", "") != one["stderr"]:
+            # (a module rejected by the back end passes the front end silently: its
+            # diagnostics come from the second process)
             chk.violation("input", {
                 "input": {"files": minimal_files(s), "main": s["main"], "set": s["name"]},
-                "observable": "diagnostics: embossc vs emboss_front_end",
-                "one_process": one["stderr"][:1500], "two_process": r["fe"]["stderr"][:1500],
+                "observable": "diagnostics: embossc vs emboss_front_end + emboss_codegen_cpp",
+                "one_process": one["stderr"][:1500],
+                "two_process": (r["fe"]["stderr"] + r.get("be", {}).get("stderr", ""))[:1500],
                 "expected": "identical stderr"}, key="twoproc:" + s["name"])
     chk.extra["two_process_compared"] = n
 
@@ -712,19 +715,19 @@ def run(tier):
     sweep(chk, corpus + td + gen, seeds, "in-process batch")
     lap("sweep")
     cli_sets = [s for s in corpus if s["name"] in (
-        "F6-expected-token-order", "F7-cycle-group-order", "anon-imports", "import-missing")]
+        "F6-expected-token-order", "F7-cycle-group-order", "anon-imports", "import-missing", "cpp-enum-case-bad")]
     if tier == "thorough":
         cli_sets = corpus + td[:6]
-    cli_seeds = [0, 1, 2] if tier == "quick" else list(range(8))
+    cli_seeds = [0, 1, 2] if tier == "quick" else list(range(6))
     cli_res = cli_sweep(chk, cli_sets, cli_seeds)
     lap("cli_sweep")
-    two_process(chk, cli_sets if tier == "thorough" else cli_sets[1:4], cli_res)
+    two_process(chk, cli_sets if tier == "thorough" else cli_sets[1:5], cli_res)
     lap("two_process")
     import_dir_permutations(chk, r)
     lap("import_dirs")
     history_check(chk, corpus + td + gen, r)
     lap("history")
-    for i in range(1 if tier == "quick" else 8):
+    for i in range(1 if tier == "quick" else 5):
         scenario_check(chk, "C17-scenario-%d" % i, 60 if tier == "quick" else 150, model_ok)
     lap("scenarios")
     small_models_check(chk, r, model_ok)
